@@ -41,6 +41,32 @@ fn unlock() {
     LOCK.store(false, Ordering::Release);
 }
 
+/// distinct sizes of huge (>= 32 MiB) requests seen since the last `take_huge_sizes`
+#[allow(clippy::declare_interior_mutable_const)]
+const Z: AtomicUsize = AtomicUsize::new(0);
+static HUGE_LOG: [AtomicUsize; 32] = [Z; 32];
+fn log_huge(sz: usize) {
+    for s in HUGE_LOG.iter() {
+        let v = s.load(Ordering::Relaxed);
+        if v == sz {
+            return;
+        }
+        if v == 0 && s.compare_exchange(0, sz, Ordering::Relaxed, Ordering::Relaxed).is_ok() {
+            return;
+        }
+    }
+}
+pub fn take_huge_sizes() -> Vec<usize> {
+    let mut v = vec![];
+    for s in HUGE_LOG.iter() {
+        let x = s.swap(0, Ordering::Relaxed);
+        if x != 0 {
+            v.push(x);
+        }
+    }
+    v
+}
+
 pub fn reset_max() {
     MAX_REQ.store(0, Ordering::Relaxed);
 }
@@ -56,6 +82,7 @@ unsafe impl GlobalAlloc for CachingAlloc {
         }
         if sz >= HUGE {
             HUGE_REQS.fetch_add(1, Ordering::Relaxed);
+            log_huge(sz);
             lock();
             for s in CACHE.iter() {
                 if s.ptr.load(Ordering::Relaxed) != 0
@@ -90,12 +117,18 @@ unsafe impl GlobalAlloc for CachingAlloc {
     unsafe fn alloc_zeroed(&self, layout: Layout) -> *mut u8 {
         if layout.size() >= (1 << 20) {
             MAX_REQ.fetch_max(layout.size(), Ordering::Relaxed);
+            if layout.size() >= HUGE {
+                log_huge(layout.size());
+            }
         }
         System.alloc_zeroed(layout)
     }
     unsafe fn realloc(&self, ptr: *mut u8, layout: Layout, new_size: usize) -> *mut u8 {
         if new_size >= (1 << 20) {
             MAX_REQ.fetch_max(new_size, Ordering::Relaxed);
+            if new_size >= HUGE {
+                log_huge(new_size);
+            }
         }
         if layout.size() < HUGE && new_size < HUGE {
             return System.realloc(ptr, layout, new_size);
